@@ -86,6 +86,13 @@ def ev(e, env):
                 return False
             left = right
         return True
+    if isinstance(e, ast.Subscript):
+        base = ev(e.value, env)
+        if isinstance(e.slice, ast.Slice):
+            lo = ev(e.slice.lower, env) if e.slice.lower is not None else None
+            hi = ev(e.slice.upper, env) if e.slice.upper is not None else None
+            return base[lo:hi]
+        return base[ev(e.slice, env)]
     if isinstance(e, ast.IfExp):
         return ev(e.body, env) if ev(e.test, env) else ev(e.orelse, env)
     if isinstance(e, ast.Call) and isinstance(e.func, ast.Name) and not e.keywords:
